@@ -180,8 +180,34 @@ def rule_units(ck):
      o.fail('fromtimestamp is called without tz=datetime.timezone.utc: the result would be in the machine\'s local time zone'))
 
 
+def rule_no_local_time(ck):
+    """D2.local: in this package a naive datetime *is* UTC.  `x.astimezone(tz)` reads a naive x as wall-clock time of the machine, so
+    wherever times are stored or converted it may only be applied to a value that was tested to carry a tzinfo.  Read in the time
+    utilities and in the classes that hold times (forecasts, catalogs)."""
+    P = ck.prog
+    ck.clause('D2')
+    n_funcs = 0
+    hits = 0
+    for mod in ('csep.utils.time_utils', 'csep.core.forecasts', 'csep.core.catalogs'):
+        for f in P.funcs_in(mod):
+            n_funcs += 1
+            for c in all_nodes(f):
+                if isinstance(c, ast.Call) and isinstance(c.func, ast.Attribute) and c.func.attr == 'astimezone':
+                    recv = u(c.func.value)
+                    aware = any(('tzinfo' in u(t) and recv.split('.')[0] in u(t)) for t, pol in guards_of(c, f.node))
+                    hits += 1
+                    o = ck.ob('C15-D2.local', f, c, c)
+                    (o.ok('receiver tested for a tzinfo') if aware else
+                     o.fail('`%s` converts a possibly naive datetime through the local time zone of the machine: the package defines naive = UTC '
+                            '(datetime_to_utc_epoch tags it with replace(tzinfo=utc)), so outside UTC the stored time is shifted by the local offset and '
+                            'the conversion is not even monotone across a daylight-saving change' % u(c)[:70]))
+    o = ck.ob('C15-D2.local', P.func(T + 'datetime_to_utc_epoch'), 'no conversion through the local time zone (%d functions read)' % n_funcs, None)
+    o.ok('%d astimezone call(s), each on a value known to be aware' % hits)
+
+
 def rule_utc(ck):
     P = ck.prog
+    rule_no_local_time(ck)
     ck.clause('D2')
     f = P.func(T + 'datetime_to_utc_epoch')
     N = sym.Normalizer()
@@ -483,6 +509,14 @@ def rule_readers_time(ck):
     o = ck.ob('C15-D1.get_datetimes', f, r[0].value, r[0])
     txt = u(Expander(P, f).expand(r[0].value))
     (o.ok() if 'epoch_time_to_utc_datetime' in txt and 'get_epoch_times' in txt else o.fail('get_datetimes does not map epoch_time_to_utc_datetime over the epoch times'))
+    from .common import receiver_writes
+    w = receiver_writes(f)
+    priv = [n for n in all_nodes(f) if isinstance(n, ast.Attribute) and isinstance(n.ctx, ast.Load) and isinstance(n.value, ast.Name) and n.value.id == 'self'
+            and n.attr.startswith('_') and n.attr != '_catalog']
+    oo = ck.ob('C15-D1.live', f, 'converted from the stored epoch times at every call', f.node)
+    (oo.fail('get_datetimes keeps its result (`%s`): after the events change (filter in place, assignment to .catalog) it still returns the datetimes '
+             'of the old events, so epoch -> datetime -> epoch no longer returns the epoch times the catalog holds' % u(w[0] if w else priv[0])[:60])
+     if (w or priv) else oo.ok('nothing stored, nothing remembered'))
 
 
 def rule_exact_all(ck):
